@@ -330,6 +330,29 @@ def r5_mate_scores(ctx):
         for _, call in gots[:1]:
             ctx.ob(rule, name, '%s: verdict computed for the scored side on the same board' % inst,
                    call[2][2] in (('p', 3), COLORS[k[1]]) and call[2][0] == ('ref', ('der', ('p', 1))), found=show(call), expected='game_ending(board, mg, current_turn)')
+    # no other source of values: every return path of score is the repetition clause, a verdict value or the material score of this board
+    # (a remembered value, e.g. from a cache keyed without the remaining depth, is none of these)
+    other = []
+    n_ret = 0
+    for col in ('White', 'Black'):
+        for o in Engine(facts, readonly=ro).run(name, args=[None, None, COLORS[col], None]):
+            if o.kind != 'return':
+                continue
+            n_ret += 1
+            v = o.value
+            if is_const(v):
+                continue
+            if v[0] == 'call' and v[1] == EV + 'board_material_score' and v[2][0] == ('ref', ('der', ('p', 1))):
+                continue
+            try:
+                ev(v, {('p', 4): 0})
+                continue
+            except Unevaluable:
+                other.append(show(v)[:160])
+    ctx.ob(rule, name, 'every value returned is a verdict score or the material score of this board', not other and n_ret > 0, found=sorted(set(other))[:3],
+           expected='WIN/LOSS constants +- remaining depth, 0, or board_material_score(board)',
+           why='a score taken from anywhere else (a per-generator memo keyed by position only) ignores the remaining depth: a mate found with more '
+               'depth left no longer scores better than one found with less')
     ok = isinstance(ww, int) and isinstance(bw, int) and bw - 255 >= -32768 and ww + 255 <= 32767 and ww > 0 > bw
     ctx.ob(rule, EV + 'WHITE_WINS/BLACK_WINS', 'mate scores +-255 stay inside i16', ok, found={'WHITE_WINS': ww, 'BLACK_WINS': bw},
            expected='BLACK_WINS - 255 >= i16::MIN and WHITE_WINS + 255 <= i16::MAX')
